@@ -450,7 +450,7 @@ class StmtMixin:
         if isinstance(v, VRef):
             h = st.heap[v.oid]
             if isinstance(h, VSeq):
-                nv = fresh(TSeq(h.etype), label)
+                nv = fresh(TSeq(VAL if (h.concrete is not None and not h.concrete) else h.etype), label)
                 if h.flat is not None and nv.flat is None:
                     nv.flat = z3.Int(uid(label + "$flat"))
                 st.assume(nv.len >= 0)
@@ -514,10 +514,17 @@ class StmtMixin:
             except (SpecError, PathEnd, KeyError, Unsupported):
                 continue
             if isinstance(le, ast.Name) and le.id in spec.get("havoc_types", {}):
+                if isinstance(b, VRef) and isinstance(h.heap.get(b.oid), VSeq) and le.id not in names:
+                    # a list only mutated in place (append ...): havoc its content at the element type the sidecar declares
+                    nv = fresh(spec["havoc_types"][le.id], f"list@{tag}")
+                    h.assume(nv.len >= 0)
+                    h.heap[b.oid] = nv
                 continue
             if isinstance(b, VRef) and isinstance(h.heap.get(b.oid), VSeq):
                 old = h.heap[b.oid]
-                nv = fresh(TSeq(old.etype), f"list@{tag}")
+                # a list that is empty before the loop says nothing about what the body appends: its elements are opaque
+                et = VAL if (old.concrete is not None and not old.concrete) else old.etype
+                nv = fresh(TSeq(et), f"list@{tag}")
                 if old.flat is not None and nv.flat is None:
                     nv.flat = z3.Int(uid(f"list@{tag}$flat"))
                 h.assume(nv.len >= 0)
